@@ -387,7 +387,11 @@ func Supervise(self, prop, tier, verifDir string, nshards int) int {
 	exit := 0
 	knownSeen := []string{}
 	newViol := 0
-	os.MkdirAll(filepath.Join(verifDir, "replays", prop), 0o755)
+	replayRoot := filepath.Join(verifDir, "replays")
+	if d := os.Getenv("VERIF_REPLAY_DIR"); d != "" {
+		replayRoot = d
+	}
+	os.MkdirAll(filepath.Join(replayRoot, prop), 0o755)
 	for _, sgn := range sigs {
 		v := m.Viol[sgn]
 		isKnown := false
@@ -402,7 +406,7 @@ func Supervise(self, prop, tier, verifDir string, nshards int) int {
 			continue
 		}
 		newViol++
-		path := filepath.Join(verifDir, "replays", prop, slug(sgn)+".json")
+		path := filepath.Join(replayRoot, prop, slug(sgn)+".json")
 		b, _ := json.MarshalIndent(v, "", " ")
 		os.WriteFile(path, b, 0o644)
 		if newViol <= 25 {
@@ -468,8 +472,12 @@ func writeEvidence(p *Property, m *Merged, verifDir string, wall float64, knownS
 		"violations":  newViol,
 	}
 	b, _ := json.MarshalIndent(ev, "", " ")
-	os.MkdirAll(filepath.Join(verifDir, "evidence"), 0o755)
-	os.WriteFile(filepath.Join(verifDir, "evidence", p.ID+".json"), b, 0o644)
+	evDir := filepath.Join(verifDir, "evidence")
+	if d := os.Getenv("VERIF_EVIDENCE_DIR"); d != "" {
+		evDir = d // runs against scratch copies (mutants) must not overwrite the evidence of the real tree
+	}
+	os.MkdirAll(evDir, 0o755)
+	os.WriteFile(filepath.Join(evDir, p.ID+".json"), b, 0o644)
 }
 
 // Replay re-checks one recorded violation file without the explorer.
